@@ -2,11 +2,13 @@ import Ark.Model.DrvC15
 import Ark.Model.DrvC01
 import Ark.Model.DrvC17
 import Ark.Model.DrvC03
+import Ark.Model.DrvC20
 /-  arkdrv: one op per line on stdin: `<prop> <op> args… => <impl output>` → one line `model|verdict` -/
 open Ark
 
 structure DrvState where
   c01 : DrvC01.Cache := {}
+  c20 : DrvC20.Cache := {}
 
 def dispatch (st : DrvState) (line : String) : DrvState × String :=
   let (inp, impl) := match line.trimAscii.toString.splitOn " => " with
@@ -17,6 +19,10 @@ def dispatch (st : DrvState) (line : String) : DrvState × String :=
   | "C15" :: op :: args =>
     match DrvC15.run op args impl with
     | some (m, s) => (st, m ++ "|" ++ s)
+    | none => (st, "bad-op")
+  | "C20" :: op :: args =>
+    match DrvC20.run' st.c20 op args impl with
+    | some (c, m, s) => ({ st with c20 := c }, m ++ "|" ++ s)
     | none => (st, "bad-op")
   | "C03" :: op :: args =>
     match DrvC03.run op args impl with
